@@ -16,12 +16,19 @@ RULE = ('A case is (base, message list, readiness answers, transport answer scri
         '40-400 kB while the scripted server starts reading 0-50 ms late (real short writes: paramiko accepts at most one packet per '
         'send); the octets the server received are decoded by the strict receivers; the counts returned by the real _transport_write '
         'are recorded in a subclass (resubmission of the unsent tail, accepted == received). A failing peer case is re-executed 3 times. '
+        'Scheduled cases (kind wsched): the real Session.send callers (1-4 threads), the real Session.run and a thread assigning _base run under the '
+        'deterministic scheduler of tools/harness/sched.py with scripted write answers / readiness answers; a case is (spec, decision list); 10 scenarios '
+        'enumerated for 1 pre-emption completely and for <= 2 (thorough <= 3) pre-emptions up to a cap, + 500 (thorough 8000) random specs and schedules; '
+        'every effect trace is replayed label by label on the extracted WriterSched.wstep and an independent strict receiver reads the accepted octets. '
         'distinct = distinct case; non-trivial = at least one non-empty message.')
-ASSUMES = ['queue.Queue is FIFO and thread-safe; a transport returning n has taken data[:n] (n > len(data) means everything)',
+ASSUMES = ['WriterSched: _base is assigned only while no request is queued or dequeued-and-unframed (_post_connect returns after the assignment)',
+           'queue.Queue is FIFO and thread-safe; a transport returning n has taken data[:n] (n > len(data) means everything)',
            'messages are str: str.encode() is UTF-8; the model works on the octets',
            'CPython bytes %-formatting (b"%i") prints decimal without sign/padding: validated by every 1.1 case']
 TRUSTED = ['modelled, not verified: queue.Queue, threading, CPython bytes formatting/slicing',
            'tools/harness/fakesession.py in-memory transport and selector shim (rebinds ncclient.transport.session.selectors/TICK)',
+           'scheduled cases: tools/harness/sched.py, wr_sched.py, wr_check.py (scheduler, logging fields, scripted transport, effect log -> label mapping); '
+           'the queue is sched.SQueue (atomic put/get/empty) there, queue.Queue in the free-running thread cases',
            'peer cases: tools/harness/c01_peers.py (scripted TLS/SSH/Unix servers, recording session subclasses), c12_peers.py (certificates, host key); '
            'OpenSSL, paramiko and the loopback stack are peers, not verified; wall-clock bound 10 s per connection']
 
@@ -446,7 +453,7 @@ def run(ctx):
     quick = ctx.tier == 'quick'
     cases = []
     for p in sorted(glob.glob(os.path.join(paths.CORPUS, 'C02', '*.json'))):
-        cases.append(json.load(open(p))['case'])
+        if not os.path.basename(p).startswith('wsched_'): cases.append(json.load(open(p))['case'])
     # (a) generated single-submitter cases (well-formed stream) + a separate stream with RFC-unencodable messages
     for _ in range(700 if quick else 6000): cases.append(gen_case(rng))
     for _ in range(60 if quick else 400): cases.append(gen_case(rng, allow_bad=True))
@@ -505,6 +512,13 @@ def run(ctx):
                 ctx.disagree({'kind': 'decoder', 'base': b, 'wire': w.hex()}, None if co is None else [x.hex() for x in co],
                              None if py is None else [x.hex() for x in py], 'WireSpec.decode vs Python strict receiver', theorem='C02_decode11/C02_decode10')
         ctx.extra['decoder_crosscheck_streams'] = len(streams)
+    # (g) Session.send callers racing Session.run under the deterministic scheduler: every effect trace validated against
+    #     Model/WriterSched.v, strict receiver on the accepted octets vs the messages in put order
+    if not too_many(ctx):
+        from harness import wr_check
+        sched_corpus = [json.load(open(p))['case'] for p in sorted(glob.glob(os.path.join(paths.CORPUS, 'C02', 'wsched_*.json')))]
+        n_sched = wr_check.check(ctx, n_random=500 if quick else 8000, dfs_bound=2 if quick else 3, dfs_cap=220 if quick else 4000, corpus=sched_corpus)
+        ctx.extra['scheduled_runs'] = n_sched
     # (f) the same property sentence behind the real transports
     if not too_many(ctx):
         peers_level(ctx)
@@ -598,7 +612,11 @@ def peers_level(ctx):
 
 def search(ctx, seeds):
     rng = ctx.rng
-    tries = [c for c in seeds if c.get('kind') not in ('decoder', 'peer')]
+    if any(c.get('kind') == 'wsched' for c in seeds):
+        from harness import wr_check
+        f = wr_check.search(ctx, seeds)
+        if f: return f
+    tries = [c for c in seeds if c.get('kind') not in ('decoder', 'peer', 'wsched')]
     for _ in range(1500): tries.append(gen_case(rng))
     for base in (0, 1): tries.extend(failure_cases(base, ['ab', 'naïve'], 3))
     for _ in range(30): tries.append(gen_concurrent(rng))
@@ -623,6 +641,9 @@ def reproduce(finding):
 
 def replay(doc):
     case = doc['case']
+    if case.get('kind') == 'wsched':
+        from harness import wr_check
+        return wr_check.replay(doc)
     if case.get('kind') == 'decoder':
         print('decoder cross-check case', case); return False
     obs, probs, _ = run_any(_NoModel, case)
